@@ -201,6 +201,8 @@ type tr struct {
 	allocTop *Var
 	panicking *Var
 	panicVal *Var
+	deferPrefix string // names the registration flags of deferred calls inside an inlined literal
+	litInst int
 	didPanic *Var // set when the exit sequence was entered through a panic (stays set after recover)
 	returnedVars []*Var // result values at the return statement, before deferred calls
 	labels map[string]string // pending label for next loop
